@@ -92,6 +92,7 @@ type World struct {
 
 	adv *Adversary
 	seenIDs map[types.Hash256]string // C12: every derived ID ever seen -> kind
+	stateByBlock map[types.BlockID]string
 }
 
 func (w *World) wall() time.Time { return epoch.Add(time.Duration(w.now) * time.Second) }
@@ -124,8 +125,8 @@ func (w *World) harnessErr(f string, a ...any) {
 // Run executes one simulated run of the given profile.
 func Run(t *sim.Tape, profile, tier string) (res *sim.RunResult) {
 	start := time.Now()
-	w := &World{tape: t, log: sim.NewLog(200), stats: sim.Stats{}, tier: tier,
-		ledgers: map[types.BlockID]*ref.Ledger{}, badLedger: map[types.BlockID]bool{}, reach: map[string]bool{}, seenIDs: map[types.Hash256]string{}}
+	w := &World{tape: t, log: sim.NewLog(max(200, debugKeep)), stats: sim.Stats{}, tier: tier,
+		ledgers: map[types.BlockID]*ref.Ledger{}, badLedger: map[types.BlockID]bool{}, reach: map[string]bool{}, seenIDs: map[types.Hash256]string{}, stateByBlock: map[types.BlockID]string{}}
 	res = &sim.RunResult{Engine: "E1", Profile: profile}
 	defer func() {
 		if r := recover(); r != nil {
@@ -392,6 +393,7 @@ func (w *World) deliver(to int, m msg) {
 }
 
 func (w *World) nodeBlock(n *Node, b types.Block, from int, mayAsk bool) {
+
 	// hold back blocks from the future (node policy, not a consensus rule)
 	if b.Timestamp.After(n.tip.MaxFutureTimestamp(n.clock())) {
 		if b.Timestamp.After(n.clock().Add(15 * time.Hour)) {
@@ -406,9 +408,12 @@ func (w *World) nodeBlock(n *Node, b types.Block, from int, mayAsk bool) {
 		}
 		return
 	}
-	if !n.receiveBlock(b) {
-		// orphan: remember it and ask the sender for the branch
-		if len(n.orphans) < 64 {
+	known := n.receiveBlock(b)
+	stuck := known && n.hasInvalidAncestor(b.ID())
+	if !known || stuck {
+		// orphan (or a branch hanging off a copy we could not validate):
+		// remember it and ask the sender for the branch
+		if !known && len(n.orphans) < 64 {
 			n.orphans[b.ParentID] = append(n.orphans[b.ParentID], b)
 		}
 		w.stats.Inc("node.orphan")
@@ -448,6 +453,18 @@ func (w *World) serveBlocks(n *Node, m msg) {
 			start = int(e.height)
 			break
 		}
+	}
+	// stand-in for the iterated locator exchange of a real sync: skip what the
+	// requester already holds of our best chain.
+	peer := w.nodes[m.from]
+	for start+1 < len(n.best) {
+		if pe, ok := peer.blocks[n.best[start+1]]; !ok || pe.invalid {
+			break
+		}
+		start++
+	}
+	if debugHook != nil && w.quiet {
+		w.log.Addf("DBG serve from=%d to=%d loc=%d start=%d best=%d", n.idx, m.from, len(loc), start, len(n.best))
 	}
 	var out []types.V2Block
 	for h := start + 1; h < len(n.best) && len(out) < 30; h++ {
@@ -759,6 +776,7 @@ func (w *World) quiesce() {
 		if n.crashed {
 			w.restartNode(n)
 		}
+		n.skew = 0 // clock skew is a fault; faults have stopped
 	}
 	w.heal()
 	drain := func() {
@@ -828,6 +846,7 @@ func (w *World) converged() bool {
 func (w *World) finish() {
 	if debugHook != nil {
 		debugHook(w)
+		debugLines = w.log.Tail(debugKeep)
 	}
 	w.stats.Add("world.blocks", int64(w.mined))
 	w.stats.Add("world.max-reorg-depth", int64(w.maxReorg))
@@ -842,3 +861,5 @@ func (w *World) finish() {
 }
 
 var debugHook func(w *World)
+var debugKeep int
+var debugLines []string
